@@ -27,8 +27,10 @@ def dispatch (line : String) : Ans :=
   | "minimax" :: r => handleMinimax r
   | "mirrorchk" :: r => handleMirrorChk r
   | "search" :: r => handleSearch r
+  | "evalp" :: r => handleEvalP r
   | "searchchk" :: r => handleSearchChk r
   | "bot" :: r => handleBot r
+  | "referee" :: r => handleReferee r
   | "book" :: r => handleBook r
   | "glue" :: r => handleGlue r
   | "bookgen" :: r => handleBookGen r
